@@ -955,6 +955,9 @@ func (r *run) eval(s *State, e ast.Expr) Val {
 			if x.Sel.Name == "position" {
 				return Val{K: "pos", A: base.A}
 			}
+			if x.Sel.Name == "rn" {
+				return Val{K: "rn", A: base.A}
+			}
 			return Val{K: "spfield", A: base.A, B: x.Sel.Name}
 		case "tuple":
 			if f, ok := base.F[x.Sel.Name]; ok {
@@ -1203,12 +1206,21 @@ func (r *run) falsityImpliesNotEOF(s *State, e ast.Expr) bool {
 				v := r.eval(s, l)
 				return v.K == "rn" && v.A == s.Pt && v.B == ""
 			}
-			if in.pPath(l) == "pt.w" && in.exprText(rr) == "0" {
+			if in.exprText(rr) == "0" && r.isCurrentWidth(s, l) {
 				return true
 			}
 		}
 	}
 	return false
+}
+
+// isCurrentWidth: e denotes the width of the rune at the current position (p.pt.w or <copy of p.pt>.w).
+func (r *run) isCurrentWidth(s *State, e ast.Expr) bool {
+	if r.in.pPath(e) == "pt.w" {
+		return true
+	}
+	v := r.eval(s, e)
+	return v.K == "spfield" && v.B == "w" && v.A == s.Pt
 }
 
 // truthImpliesNotEOF: e true implies not end of input (cur < K with K <= 0xFFFD on the raw rune).
@@ -1245,7 +1257,7 @@ func (r *run) truthImpliesNotEOF(s *State, e ast.Expr) bool {
 				v := r.eval(s, l)
 				return v.K == "rn" && v.A == s.Pt && v.B == ""
 			}
-			if in.pPath(l) == "pt.w" && in.exprText(rr) == "0" {
+			if in.exprText(rr) == "0" && r.isCurrentWidth(s, l) {
 				return true
 			}
 		}
